@@ -432,8 +432,14 @@ pub fn read_tinydiff(bytes: &[u8]) -> Result<DiffSet, String> {
         Ok(())
     }
     while let Some(l) = it.next() {
-        if l.indent != 0 || l.fields[0] != "c" || l.fields.len() < 2 {
-            return Err(format!("line {}: expected class diff", l.no));
+        if l.indent != 0 {
+            return Err(format!("line {}: indentation", l.no));
+        }
+        if l.fields[0] != "c" {
+            continue; // unknown section: skipped
+        }
+        if l.fields.len() < 2 {
+            return Err(format!("line {}: class diff without key", l.no));
         }
         let key = l.fields[1];
         if !valid_obj_class_name(key) {
@@ -482,16 +488,18 @@ pub fn read_tinydiff(bytes: &[u8]) -> Result<DiffSet, String> {
                                 while let Some(l) = it.peek().filter(|l| l.indent >= 3) {
                                     let l = *l;
                                     it.next();
-                                    if l.indent != 3 || l.fields[0] != "c" {
-                                        return Err(format!("line {}: expected parameter comment diff", l.no));
+                                    if l.indent != 3 {
+                                        return Err(format!("line {}: indentation", l.no));
                                     }
-                                    doc(l, &mut p.doc, &mut seen)?;
+                                    if l.fields[0] == "c" {
+                                        doc(l, &mut p.doc, &mut seen)?;
+                                    }
                                 }
                                 if m.params.insert(idx, p).is_some() {
                                     return Err(format!("line {}: duplicate parameter diff", l.no));
                                 }
                             }
-                            _ => return Err(format!("line {}: unknown member sub-section", l.no)),
+                            _ => {} // unknown sub-section: skipped
                         }
                     }
                     let map = if is_f { &mut c.fields } else { &mut c.methods };
@@ -499,7 +507,7 @@ pub fn read_tinydiff(bytes: &[u8]) -> Result<DiffSet, String> {
                         return Err(format!("line {}: duplicate member diff", l.no));
                     }
                 }
-                _ => return Err(format!("line {}: unknown class sub-section", l.no)),
+                _ => {} // unknown sub-section: skipped
             }
         }
         if d.classes.insert(key.to_string(), c).is_some() {
